@@ -174,7 +174,7 @@ PROPS["C15"] = {
 }
 
 PROPS["C04"] = {
-    "channels": [{"cmd": "run-c04", "driver": False, "shards": 1}, {"cmd": "run-json"}],
+    "channels": [{"cmd": "run-c04", "driver": False, "shards": 1}, {"cmd": "run-json"}, {"cmd": "run-c06", "kind": "race", "reps": 4}],
     "cone": r"^MISMATCH (json|json-fuel|ndjson|harness|driver)",
     "rule": "reference: each of ~55 (input, limit) pairs detected alone in a fresh child process; then 40 (thorough 1500) single-goroutine histories of 2-30 detections (geojson/har/gltf after aborted deep parses, 9 kB documents, cut documents, CSV of width 7 then 2, ragged and quoted CSV, NDJSON, HTML/XML) with dirty recycled parser states injected through the hook, 8 goroutines detecting concurrently, bytes beyond the limit inverted; every result must equal the reference; the caller's buffer and 32 bytes of spare capacity are hashed before and after; json channel: Parse with all four queries after injecting dirty states vs the pure model",
     "proved": "the model's Detect depends on the header only (same first `limit` bytes => same result; bytes past the limit irrelevant); reset erases every field a scan reads; Parse on any recycled state = Parse on a fresh state of the same cap; history_pure for every op list and pool behaviour under the pool invariant (cap constant)",
